@@ -386,6 +386,7 @@ func TestPlugin(gates *Gates, stats *PluginStats) *schema.CallableSchema {
 			stats.Steps[in.Tag]++
 			stats.mu.Unlock()
 		}
+		gates.Open("started:" + in.Tag) // lets a harness wait until the step is really running
 		if in.Gate != nil && *in.Gate != "" {
 			gates.Wait(*in.Gate, 20*time.Second)
 		}
